@@ -11,7 +11,7 @@ use serde_json::json;
 pub fn small_cfg() -> CaseCfg {
     CaseCfg {
         table: TableCfg::default(),
-        tree: TreeCfg { max_operands: 8, lit_pct: 45, unary_pct: 20 },
+        tree: TreeCfg { max_operands: 8, lit_pct: 45, unary_pct: 20, ..TreeCfg::default() },
         render: RenderCfg::default(),
         max_vars: 5,
         weird_pct: 10,
@@ -20,7 +20,7 @@ pub fn small_cfg() -> CaseCfg {
 pub fn long_cfg() -> CaseCfg {
     CaseCfg {
         table: TableCfg::default(),
-        tree: TreeCfg { max_operands: 200, lit_pct: 40, unary_pct: 8 },
+        tree: TreeCfg { max_operands: 200, lit_pct: 40, unary_pct: 8, ..TreeCfg::default() },
         render: RenderCfg { redundant_paren_pct: 3, ..RenderCfg::default() },
         max_vars: 20,
         weird_pct: 5,
